@@ -172,7 +172,8 @@ func (dw *DiskWriter) HandleChange(kind ChangeKind, p string, fi os.FileInfo, er
 			return errors.Wrapf(err, "failed to create dir %s", newPath)
 		}
 		dw.dirModTimes[destPath] = statCopy.ModTime
-	case fi.Mode()&os.ModeDevice != 0 || fi.Mode()&os.ModeNamedPipe != 0:
+	case (fi.Mode()&os.ModeDevice != 0 || fi.Mode()&os.ModeNamedPipe != 0) && statCopy.Linkname == "":
+		// a further name of a device or fifo is a hard link like any other
 		if err := handleTarTypeBlockCharFifo(newPath, statCopy); err != nil {
 			return errors.Wrapf(err, "failed to create device %s", newPath)
 		}
